@@ -102,7 +102,8 @@ static const int TH_Q[] = {1, 2, 3, 8};
 static int pick_n(int selection) { if (H_TSAN) { static const int t[] = {3, 5, 13}; return t[vx_choose("n", 3)]; } return NS[vx_choose("n", selection && !vx_thorough() ? 6 : 7)]; }
 static int pick_d(void) { if (H_TSAN) return vx_choose("d", 2) ? 3 : 1; return DS[vx_choose("d", 4)]; }
 static int pick_fam(void) { return vx_choose("fam", H_TSAN ? 1 : vx_thorough() ? 2 : 1); }
-static int pick_th(void) { if (H_TSAN) { static const int t[] = {2, 3, 8}; return t[vx_choose("threads", 3)]; } return vx_thorough() ? 1 + vx_choose("threads-1", 8) : TH_Q[vx_choose("threads", 4)]; }
+/* thorough: every count 1..8, except for the 80-object selections (80 sizes each), which keep {1,2,3,8} */
+static int pick_th(int heavy) { if (H_TSAN) { static const int t[] = {2, 3, 8}; return t[vx_choose("threads", 3)]; } return vx_thorough() && !heavy ? 1 + vx_choose("threads-1", 8) : TH_Q[vx_choose("threads", 4)]; }
 static matrix *gen(int fam, int r, int c, double scale) {
   double *b = malloc(sizeof(double) * (size_t)(r * c + 1)); vg_fill(fam, r, c, b);
   for (int i = 0; i < r * c; i++) b[i] *= scale;
@@ -166,7 +167,7 @@ static int judge_maxmin(const char *fn, const matrix *m, int metric, const uivec
 static void op_select(void) {
   int method = vx_choose("method", 3), n = pick_n(1), d = pick_d(), fam = pick_fam();
   int metric = method == 2 ? 0 : vx_choose("metric", 3);
-  int want = 1 + vx_choose("size-1", n), th = pick_th();
+  int want = 1 + vx_choose("size-1", n), th = pick_th(n == 80);
   int seed = method == 2 ? vx_choose("seed", H_TSAN ? 1 : 2) : 0;
   matrix *m = gen(fam, n, d, 1.0); const char *tc = thcls(n, th); char key[200], cl[96];
   snprintf(cl, sizeof cl, "%s,%s", MET[metric], want == n ? "select-all" : want == 1 ? "select-1" : "select-some");
@@ -216,7 +217,7 @@ static void op_select(void) {
 static const char *INIT[4] = {"random", "kmeans++", "MDC", "MaxDis"};
 static void op_kmeans(void) {
   int init = vx_choose("init", 4), n = pick_n(0), d = pick_d(), fam = pick_fam();
-  int kmax = n < 6 ? n : 6, k = 1 + vx_choose("k-1", kmax), th = pick_th();
+  int kmax = n < 6 ? n : 6, k = 1 + vx_choose("k-1", kmax), th = pick_th(0);
   int seed = init < 2 ? vx_choose("seed", H_TSAN ? 1 : vx_thorough() ? 3 : 2) : 0;
   double scale = vx_choose("scale", vx_thorough() || n <= 8 ? 2 : 1) ? 1e-4 : 1.0;   /* quick: the small-scale copy only for n <= 8 */
   matrix *m = gen(fam, n, d, scale); const char *tc = thcls(n, th); char key[200], fn[48];
@@ -288,7 +289,7 @@ int main(int argc, char **argv) {
   vg_seed(getenv("VERIF_SEED") ? atol(getenv("VERIF_SEED")) : 0);
   vx_describe("build", H_TSAN ? "clang ThreadSanitizer, small subset, free-running threads" : "gcc ASan+UBSan");
   vx_describe("alphabet", "n in {3,4,5,8,13,30,80} x d in {1,2,3,6} x general-position families (selection, quick tier: n <= 30); selection: {MDC, MaxDis+MaxDis_Fast} x 3 metrics x ALL sizes 1..n, KMeansppCenters x ALL sizes 1..n x seeds; "
-              "k-means: k = 1..min(6,n) x initialiser {random, kmeans++, MDC, MaxDis} x seeds (random initialisers) x data scale {1, 1e-4}; thread counts {1,2,3,8} (thorough: 1..8)");
+              "k-means: k = 1..min(6,n) x initialiser {random, kmeans++, MDC, MaxDis} x seeds (random initialisers) x data scale {1, 1e-4}; thread counts {1,2,3,8} (thorough: 1..8; {1,2,3,8} for the 80-object selections)");
   vx_describe("oracle", "distinct in-range indices of the requested number; first = farthest from centroid and every next maximises the minimum library-metric value to the chosen ones "
               "(long double, candidates within 1e-9 accepted); MaxDis == MaxDis_Fast when no step is a near-tie; labels < k; centroid = mean of its members to 64 eps (members+2) max|x|; "
               "own-centroid distance <= nearest + 2 sqrt(d) 1e-3 when fewer than 101 iterations ran; results equal to the 1-thread run");
